@@ -61,6 +61,16 @@ def monitor(case, out, cnt):
         dig = o['dig']
         now = ev['now']
         bump('events')
+        # -- a raw DATA frame names its recipient in the header nibble: with source checking on it must go to an address that
+        #    slot is/was bound to (without source checking any sender may speak for the session and replies follow it)
+        for snd in o['sends']:
+            first = snd['data'].split(':')[-1] if snd['data'] else ''
+            if cfg.check_ip and first.startswith('10d19e2') and len(first) >= 8:
+                n = int(first[7], 16)
+                bump('raw_data_frames_sent')
+                if (snd['fam'], snd['ip']) not in was_bound.get(n, set()):
+                    return ('raw-data-misdelivered', 'a raw data frame for userid %d was sent to %s:%s, to which that session is not bound (bound: %r)'
+                            % (n, snd['fam'], snd['ip'], sorted(was_bound.get(n, set()))), k)
         vk = vacks(o) if ev['kind'] == 'X' else []
         vset = set(v for v, _ in vk)
         if ev['kind'] == 'X':
